@@ -55,8 +55,8 @@ func cmpLit(p *pkgInfo, lhs string, op token.Token) (string, error) {
 }
 
 var c14Consts = []constSpec{
-	{name: "hmac_min_key_prim", dir: "internal/mac/hmac", cnst: "minKeySizeInBytes"},
-	{name: "hmac_min_tag_prim", dir: "internal/mac/hmac", cnst: "minTagSizeInBytes"},
+	{name: "hmac_min_key_prim", dir: "internal/mac/hmac", cnst: "minKeySizeInBytes", lhs: "keySize", op: token.LSS},
+	{name: "hmac_min_tag_prim", dir: "internal/mac/hmac", cnst: "minTagSizeInBytes", lhs: "tagSize", op: token.LSS},
 	{name: "hmac_min_key_parse", dir: "mac/hmac", lhs: "opts.KeySizeInBytes", op: token.LSS},
 	{name: "hmac_min_tag_parse", dir: "mac/hmac", lhs: "opts.TagSizeInBytes", op: token.LSS},
 	{name: "hkdf_min_key_prim", dir: "prf/subtle", cnst: "minHKDFKeySizeInBytes"},
@@ -66,14 +66,14 @@ var c14Consts = []constSpec{
 	{name: "cmac_key_prim", dir: "mac/subtle", cnst: "recommendedCMACKeySizeInBytes"},
 	{name: "cmac_min_tag", dir: "mac/aescmac", lhs: "opts.TagSizeInBytes", op: token.LSS},
 	{name: "cmac_max_tag", dir: "mac/aescmac", lhs: "opts.TagSizeInBytes", op: token.GTR},
-	{name: "rsa_min_bits_prim", dir: "internal/signature", cnst: "rsaMinModulusSizeInBits"},
-	{name: "rsa_exponent_prim", dir: "internal/signature", cnst: "rsaDefaultPublicExponent"},
+	{name: "rsa_min_bits_prim", dir: "internal/signature", cnst: "rsaMinModulusSizeInBits", lhs: "m", op: token.LSS},
+	{name: "rsa_exponent_prim", dir: "internal/signature", cnst: "rsaDefaultPublicExponent", lhs: "e", op: token.NEQ},
 	{name: "rsa_min_bits_parse", dir: "signature/rsassapkcs1", lhs: "modulusSizeBits", op: token.LSS},
 	{name: "rsa_pss_min_bits_parse", dir: "signature/rsassapss", lhs: "values.ModulusSizeBits", op: token.LSS},
 	{name: "siv_key_prim", dir: "daead/subtle", cnst: "AESSIVKeySize"},
 	{name: "ctrhmac_min_hmac_key", dir: "aead/aesctrhmac", lhs: "opts.HMACKeySizeInBytes", op: token.LSS},
 	{name: "aesgcm_min_tag", dir: "aead/aesgcm", lhs: "opts.TagSizeInBytes", op: token.LSS},
-	{name: "etm_min_tag", dir: "aead/subtle", cnst: "minTagSizeInBytes"},
+	{name: "etm_min_tag", dir: "aead/subtle", cnst: "minTagSizeInBytes", lhs: "tagSize", op: token.LSS},
 	{name: "jwt_max_clock_skew_minutes", dir: "jwt", cnst: "jwtMaxClockSkewMinutes"},
 	{name: "kwp_min_wrap", dir: "kwp/subtle", cnst: "MinWrapSize"},
 	{name: "kwp_max_wrap", dir: "kwp/subtle", cnst: "MaxWrapSize"},
@@ -167,6 +167,12 @@ func taskConsts(repo string, write func(name, body string) error) error {
 		var ok bool
 		if c.cnst != "" {
 			v, ok = constValue(p, c.cnst)
+			if !ok && c.lhs != "" {
+				// the constant was renamed: fall back to the constant operand of the comparison it is used in
+				if v2, err2 := cmpLit(p, c.lhs, c.op); err2 == nil {
+					v, ok = v2, true
+				}
+			}
 			if !ok {
 				untr = append(untr, c.name+": constant "+c.dir+"."+c.cnst+" not found")
 				continue
